@@ -15,6 +15,7 @@ from typing import Iterator, List, Set, Optional
 
 import os
 import glob
+import fnmatch
 
 from spil import Sid
 from spil import conf
@@ -144,6 +145,13 @@ class FindInPaths(FindByGlob):
                     continue
                 if not sid:
                     debug(f"Path did not generate sid: {path}")
+                    continue
+                # the glob pattern can over-match ("*" also matches the separator between the fields of a file name)
+                if not all(
+                    fnmatch.fnmatchcase(str(sid.get(key)), str(value))
+                    for key, value in search.fields.items()
+                ):
+                    debug(f"Found Sid does not match the search: {sid.uri} -- Search: {search.uri}")
                     continue
 
                 found_paths.add(path)
